@@ -15,7 +15,7 @@
   `new_with_backing`, every address, width, value, endianness and backing.
 
   What is NOT proved here (and said so in MANIFEST): copy-on-write sharing between clones — in the model a
-  clone is the same persistent value, so `clone_independent` below is a statement about the model only;
+  clone is the same persistent value, so `history_handles` below is a statement about the model only;
   the `RC::make_mut` behaviour is covered by the correspondence check (interleaved histories over several
   handles).  V = il::Expression is covered by the correspondence only (`mode E` histories).
 -/
@@ -107,13 +107,13 @@ theorem history_backed (e : Endian) (b : Backing) (ops : List Op) (hdom : ∀ op
     runModel (newWithBacking e b) ops = runSpec e b.get8 ops :=
   history_gen ops (newWithBacking e b) (inv_newWithBacking e b) hdom
 
-/-- clones are independent IN THE MODEL (a clone is the same value): whatever is done through one handle,
-    a history run through the other answers as if nothing had happened.  Says nothing about
-    `RC::make_mut`; see the header. -/
-theorem clone_independent (m : Mem) (I : Inv m) (ops₁ ops₂ : List Op) (h₂ : ∀ op ∈ ops₂, op.inDomain) :
-    let clone := m
-    let _afterOps₁ := runModel m ops₁
-    runModel clone ops₂ = runSpec m.endian (abs m) ops₂ := history_gen ops₂ m I h₂
+/-- HISTORY OVER SEVERAL HANDLES WITH CLONES, IN THE MODEL: any interleaving of operations through any
+    handles and of `clone`s answers what independent byte arrays answer — a store through one handle is
+    never visible through another.  In the model a clone is the same persistent value, so this says
+    nothing about `RC::make_mut`; the real sharing is covered by the correspondence check only. -/
+theorem history_handles (σ : Nat → Option Mem) (hI : ∀ h m, σ h = some m → Inv m) (ops : List HOp)
+    (hdom : ∀ op ∈ ops, op.inDomain) :
+    runH σ ops = runHSpec (absH σ) ops := history_handles_gen ops σ hI hdom
 
 /-- equality implies identical results for every load (any address, any width, valid or not) -/
 theorem eq_load {m₁ m₂ : Mem} (h : eq m₁ m₂ = true) (a n : Nat) : load m₁ a n = load m₂ a n :=
